@@ -466,6 +466,14 @@ def run(tr):
             if x:
                 x.busy = None
                 x.items_done = i + 1
+                # C13: an explicit stop or the last handle drop terminates it even if the stream never ends.
+                # The loop picks between mailbox and stream at random, so a stop that is still not
+                # taken after 40 more items (probability 2^-40) is starved.
+                if (x.stop_accepted_ret is not None or x.strong <= 0) and x.dead is None:
+                    x.items_after_stop = getattr(x, "items_after_stop", 0) + 1
+                    if x.items_after_stop == 40:
+                        S.bad("C13", f"a{a} handled 40 more stream items after a stop request was accepted / its last strong handle was dropped and still runs", idx)
+                        S.bad("C04", f"a{a} keeps handling stream items after an accepted stop request", idx)
                 if st == 1 and not x.crashing:
                     S.bad("C13", f"item {i} on a{a} abandoned", idx)
                 if st == 2:
